@@ -1360,6 +1360,11 @@ class Module(ABC):
             key = parameter["key"]
             inds = parameter["indices"]
             set_param = parameter["val"]
+            if key in self.base.synapse_state_names:
+                # Synaptic states are stored per synapse type (see `get_all_parameters`).
+                synapse_inds = self.base.edges.groupby("type").rank()
+                synapse_inds = synapse_inds["global_edge_index"].astype(int) - 1
+                inds = synapse_inds.to_numpy()[inds]
             if key in states:  # Only initial states, not parameters.
                 # `inds` is of shape `(num_params, num_comps_per_param)`.
                 # `set_param` is of shape `(num_params,)`
